@@ -7,6 +7,7 @@ import SeqVerif.Model.BulkIndex
 import SeqVerif.Model.BulkResponse
 import SeqVerif.Model.BulkConfig
 import SeqVerif.Model.BulkID
+import SeqVerif.Model.BulkHandover
 import SeqVerif.Extracted.C10
 /-!
 Driver for C10.  Requests (hex = byte string, `-` = empty):
@@ -27,6 +28,8 @@ Driver for C10.  Requests (hex = byte string, `-` = empty):
   `bulk.defaults <searchTimeout> <exportTimeout> <maxInflightBulks> <allowedTimeDrift> <futureAllowedTimeDrift>`
                                                             -> `ok <the five values after SV.Bulk.setDefaults>` (defaults: extracted consts)
   `bulk.newid <t ns> <rand.Uint64 draw> <proxy index>`      -> `ok <MID> <RID>`  (SV.BulkTime.newID on processRandomness)
+  `bulk.handover <clone|held|pooled> <events: a<payload> | w, comma separated>`
+                                                            -> `ok <payload accepted>=<payload read | x>,...`  (SV.Handover.run)
   `bulk.metas <metas payload hex>`                          -> `ok <mid:rid:size:khex=vhex+...,...> reenc=<0|1>` | `err malformed`
   `bulk.delayed <docDelay> <drift> <futureDrift>`           -> `ok <0|1>`     (extracted translation of documentDelayed)
   `bulk.mid <doc ns | none> <req ns> <drift> <futureDrift>` -> `ok <MID>`
@@ -233,6 +236,22 @@ def step (line : String) : String :=
         SV.Extracted.C10.ingestorMaxInflightBulks ⟨st, et, mi, dr, fu⟩
       s!"ok {c.searchTimeout} {c.exportTimeout} {c.maxInflightBulks} {c.allowedTimeDrift} {c.futureAllowedTimeDrift}"
     | _, _, _, _, _ => "bad-op"
+  | ["bulk.handover", disc, evs] =>
+    let evs? : Option (List SV.Handover.Ev) := (splitList evs).mapM fun e =>
+      if e = "w" then some SV.Handover.Ev.work
+      else match e.toList with
+        | 'a' :: rest => (String.ofList rest).toNat?.map SV.Handover.Ev.accept
+        | _ => none
+    let step? : Option (SV.Handover.St → SV.Handover.Ev → SV.Handover.St) :=
+      if disc = "clone" then some SV.Handover.stepClone else if disc = "held" then some SV.Handover.stepHeld
+      else if disc = "pooled" then some SV.Handover.stepPooled else none
+    match evs?, step? with
+    | some evs, some step =>
+      let out := (SV.Handover.run step evs).out
+      "ok " ++ fmtList (fun (o : Nat × Option Nat) => s!"{o.1}=" ++ (match o.2 with
+        | some r => if r = o.1 then toString r else "x"
+        | none => "x")) out
+    | _, _ => "bad-op"
   | ["bulk.newid", t, r, idx] =>
     match t.toInt?, r.toNat?, idx.toNat? with
     | some t, some r, some idx =>
